@@ -52,7 +52,8 @@ class RawClient:
 
 
 class Pool:
-    def __init__(self, proj, ncores=2, write_config=True, extra_cfg=None):
+    def __init__(self, proj, ncores=2, write_config=True, extra_cfg=None, nofile=None):
+        self.nofile = nofile  # soft RLIMIT_NOFILE of the pool process (None = inherited)
         self.proj = proj
         self.ncores = ncores
         self.port = None
@@ -86,6 +87,7 @@ class Pool:
             stdout=open(self.log, "ab"),
             stderr=subprocess.STDOUT,
             start_new_session=True,
+            preexec_fn=(lambda: __import__("resource").setrlimit(__import__("resource").RLIMIT_NOFILE, (self.nofile, __import__("resource").getrlimit(__import__("resource").RLIMIT_NOFILE)[1]))) if self.nofile else None,
         )
         t0 = time.time()
         while time.time() - t0 < 20:
